@@ -126,7 +126,7 @@ prop('C14', 'p32', 'exploration',
 
 prop('C11', 'p32', 'exploration',
      'rapid draws a list of 0..8 bitmaps (pointer duplicates, empty members, any chunk kinds and storage forms) whose keys fall in a common window of 1..260 keys placed at the bottom, middle or very top (ending at 0xFFFF) of the key space; one of FastOr/HeapOr/ParOr/ParHeapOr/FastAnd/ParAnd/HeapXor/x.AndAny is compared with the model fold; '
-     'the Par* functions are run with EVERY worker count in {0,1,2,3,4,7,16,33} on the same list and each result is compared (members may be related to earlier members: complement, threshold, touching spans; full-chunk members are placed first); TestC11Matrix enumerates 27 boundary templates x derived partners (same, complement, combs touching the largest/smallest value with cardinality sums 4096/4097) x kinds x 5 list shapes x 13 aggregates; afterwards a second aggregate of another kind over the same list is compared with its fold and every member (and the bytes behind zero-copy members) with its model. Non-trivial = >=3 members, >=2 distinct keys, >=1 key common to >=2 members; distinct = FNV-64 of (list, fn)',
+     'the Par* functions are run with EVERY worker count in {0,1,2,3,4,7,16,33} on the same list and each result is compared (members may be related to earlier members: complement, threshold, touching spans; full-chunk members are placed first); TestC11Matrix enumerates 27 boundary templates x derived partners (same, complement, combs touching the largest/smallest value with cardinality sums 4096/4097) x kinds x 5 list shapes x 13 aggregates; TestC11ManyChunks: members of 700-2100 chunks on sparse keys x 7 worker counts; afterwards a second aggregate of another kind over the same list is compared with its fold and every member (and the bytes behind zero-copy members) with its model. Non-trivial = >=3 members, >=2 distinct keys, >=1 key common to >=2 members; distinct = FNV-64 of (list, fn)',
      T(4, 700, 16, 10000),
      'property-based differential testing of n-ary aggregates against a model fold, all worker counts per case',
      'generated-input search with an independent model as oracle', 'trusted: interval-set model', COMMON_ASSUME)
@@ -183,7 +183,7 @@ prop('C19', 'pbsi', 'exploration',
 prop('C20', 'pbsi', 'exploration',
      'rapid draws a stored map (0..12 columns, values from a 4-value pool so that duplicates occur; extremes of the width; single column; empty), flavour (auto / fixed), RunOptimize on/off, a found-set {nil, all, random subset, single column, the existence set} and a worker count from {0,1,2,5,16}; for both implementations: '
      'CompareValue for 6 random (op, constants) per case with constants = stored values +-1, range edges, clamped to the representable range; BatchEqual (+BatchEqualBig, BatchEqualValues on 64); MinMax/MinMaxBig over non-empty found-sets; Sum/SumBigValues; IntersectAndTranspose and TransposeWithCounts for non-negative values inside the result universe; CompareBSI (64) for LT..GT against a second generated index; '
-     'then a bitmap returned by a query is mutated and the index must be unchanged. TestC20Block64/32 (about 1 case in 60): indexes holding a whole 65536-column chunk with 1-3 piecewise-constant values (+ tail), run-optimized; CompareValue x found-set {nil, all, sub-range}, MinMax, BatchEqual, result scribbling, expected columns computed per piece, index re-read after every query. Oracle = the predicate / extremum / sum / histogram evaluated on the map restricted to the found-set. Non-trivial = >=3 columns, >=2 distinct values and a proper-subset found-set, or mixed signs; distinct = FNV-64 of (map, found-set, workers)',
+     'then a bitmap returned by a query is mutated and the index must be unchanged. TestC20Block64/32 (about 1 case in 60): indexes holding a whole 65536-column chunk with 1-3 piecewise-constant values (+ tail), run-optimized; CompareValue x found-set {nil, all, sub-range}, MinMax, BatchEqual, result scribbling, expected columns computed per piece, index re-read after every query. TestC20Wide64: indexes wider than 64 planes (SetBigValue), CompareBigValue with constants up to both ends of the representable range, MinMaxBig, SumBigValues. Oracle = the predicate / extremum / sum / histogram evaluated on the map restricted to the found-set. Non-trivial = >=3 columns, >=2 distinct values and a proper-subset found-set, or mixed signs; distinct = FNV-64 of (map, found-set, workers)',
      T(4, 3000, 16, 40000),
      'property-based differential testing of BSI queries against predicates evaluated on a map model',
      'generated-input search with an independent model as oracle', 'trusted: map model', BSI_ASSUME, run='^TestC20')
